@@ -466,7 +466,7 @@ def rule_reader_read(fb, R, reader=READER):
         R.broken('record %s not found' % reader)
         return
     bb = _buffer_field(rec)
-    sf, en = _status_field(fb, rec)
+    sf, _en = _status_field(fb, rec)
     if bb is None:
         R.broken('%s: cannot identify the back-buffer member (exactly one member of type %s expected)' % (reader, BUFFER))
         return
@@ -542,7 +542,7 @@ def rule_reader_read(fb, R, reader=READER):
         if len(eods) != 1:
             R.broken('%s: expected one end-of-data test on the popped buffer, found %d' % (fn.q, len(eods)))
             continue
-        eb, einner, e_true, _e_false = eods[0]
+        _eb, einner, e_true, _e_false = eods[0]
         eod_sense = is_eod(fn.nodes[einner]) > 0
         eod_rets = set()
         data_rets = []
@@ -581,7 +581,7 @@ def rule_reader_read(fb, R, reader=READER):
             w = path_search(fn, Pe, lambda e: e in dr, lambda e: e in tconds or e in eod_rets)
             ok = R.check(w is None, 'R3-popped-nested-buffer-stashed', key3, fn.loc(P['id']),
                          'a path from the pop to a data return does not test has_nested_buffers() on the popped buffer: %s' % describe_path(fn, w))
-            for (tb, tinner, t_true, _t_false) in tests if ok else []:
+            for (_tb, tinner, t_true, _t_false) in tests if ok else []:
                 # S1: back buffer <- popped buffer, executed only when the test was true; S2: popped variable <- deepest nested buffer
                 # of the back buffer, after S1
                 s1 = None
@@ -1479,7 +1479,6 @@ def rule_read_meta(fb, R, files=DECODER_FILES):
             yes_side = (en == 'yes') == (x['op'] == '==')
             yes = _region_calls(fn, blk, yes_side)
             no = _region_calls(fn, blk, not yes_side)
-            label = fn.blocks[blk['id']].get('label')
             key = '%s#read_meta@%s' % (fn.q, _case_name(fn, blk) or 'body')
             no_osm = [n for n in no if n['q'].startswith('osmium::') and n.get('k') == 'call']
             yes_osm = [n for n in yes if n['q'].startswith('osmium::') and n.get('k') == 'call']
@@ -1501,7 +1500,6 @@ def rule_read_meta(fb, R, files=DECODER_FILES):
                     R.check(bool(my) and not mn, 'M4-read-meta-guards-only-metadata', key, fn.loc(blk['cond']),
                             'the read_meta::yes side of %s must be the one that decodes metadata (metadata calls with yes: %s; with no: %s)'
                             % (fn.q, sorted(my) or 'none', sorted(mn) or 'none'))
-            del label
     if nfound == 0:
         R.broken('no read_meta test found in the decoders')
 
